@@ -102,6 +102,14 @@ fn real_main() {
     let stdout = std::io::stdout();
     let mut idx = 0usize;
     for line in text.lines() {
+        // cases before `skip` (already executed before a restart) are counted, not parsed: a restart must be cheap even
+        // with a case file of a gigabyte (the thorough tier of C08 has a few hundred expected crashes)
+        if idx < skip {
+            if !line.trim().is_empty() {
+                idx += 1;
+            }
+            continue;
+        }
         let Some((dom, a)) = args::parse_line(line) else { continue };
         if idx >= skip {
             {
